@@ -587,11 +587,15 @@ func (w *YW) teardown() {
 	s.Quiesce(0)
 	if w.St != nil {
 		st := w.St
-		s.Go("stop-store", func() {
+		// (no more injected write errors: the Store's last flush would sleep before its retry, and
+		// a bubble that ends while somebody sleeps counts as leaked)
+		w.Disk.Fault = nil
+		t := s.Go("stop-store", func() {
 			ctx, cancel := context.WithTimeout(context.Background(), time.Minute)
 			defer cancel()
 			_ = st.Stop(ctx)
 		})
+		s.Settle(2*time.Minute, t)
 	}
 	s.Quiesce(0)
 }
